@@ -127,10 +127,47 @@ def declare_extras(rng, V, E, F, C):
     return E, F, EA
 
 
-def scenario(rng, tier):
+def degenerate(rng, V, E, EA, F, C, mode=None):
+    """Round 3b family: an INVALID edge that is produced by the completion, not declared by the caller.
+      face-repeat : a face with two consecutive equal indices ([1,1,3], [0,2,2,3]) -> a self-loop side
+      face-oor    : a face pointing at a vertex that does not exist (index >= nV)  -> out-of-range sides
+      cell-repeat / cell-oor : the same one level up (cell -> completed faces -> completed edges)
+    and, most of the time, only VALID declared edges (an invalid declared edge sends the code through its rebuild
+    branch, which filters everything and would mask an unfiltered completed edge)."""
+    n = len(V)
+    modes = [m for m in (["face-repeat", "face-repeat", "face-oor"] if F else []) + (["cell-repeat", "cell-oor"] if C else [])]
+    if not modes or n == 0:
+        return None
+    mode = mode or rng.choice(modes)
+    F = [list(f) for f in F]; C = [list(c) for c in C]
+    if mode == "face-repeat":
+        f = F[rng.randrange(len(F))]; i = rng.randrange(len(f)); f[(i + 1) % len(f)] = f[i]
+    elif mode == "face-oor":
+        f = F[rng.randrange(len(F))]; f[rng.randrange(len(f))] = n + rng.randint(0, 3)
+    elif mode == "cell-repeat":
+        c = C[rng.randrange(len(C))]; i = rng.randrange(len(c)); c[(i + 1) % len(c)] = c[i]
+    else:
+        c = C[rng.randrange(len(C))]; c[rng.randrange(len(c))] = n + rng.randint(0, 3)
+    if rng.random() < .75:
+        ok = lambda e: e[0] != e[1] and 0 <= e[0] < n and 0 <= e[1] < n
+        keep = [i for i, e in enumerate(E) if ok(e)]
+        pos = {i: k for k, i in enumerate(keep)}
+        E = [E[i] for i in keep]
+        EA = [dict(a, vals={str(pos[int(k)]): v for k, v in a["vals"].items() if int(k) in pos}) for a in EA]
+        mode += "+declared-all-valid"
+    return mode, E, EA, F, C
+
+
+def scenario(rng, tier, degen=None):
     kind, V, E, F, C = base(rng, tier)
     E, F, EA = declare_extras(rng, V, E, F, C)
+    out = {"kind": kind}
+    if degen or rng.random() < .12:
+        d = degenerate(rng, V, E, EA, F, C)
+        if d:
+            out["degen"], E, EA, F, C = d
     vdim = 3
     if not C and rng.random() < .2:
         vdim = 2; V = [v[:2] for v in V]
-    return {"kind": kind, "V": V, "vdim": vdim, "E": E, "EA": EA, "F": F, "C": C}
+    out.update({"V": V, "vdim": vdim, "E": E, "EA": EA, "F": F, "C": C})
+    return out
